@@ -13,6 +13,7 @@
 From Coq Require Import NArith ZArith List.
 Import ListNotations.
 From stdpp Require Import gmap.
+From CV Require KV.Model.
 From CV Require Import Chain.Store.
 From CV Require Import Chain.StoreProofs.
 From CV Require Import Chain.Crash.
@@ -145,3 +146,19 @@ Theorem C03_committed_side_is_the_last_commit :
     com d' = List.last imgs empty_img.
 Proof. exact committed_side_is_last_commit. Qed.
 Print Assumptions C03_committed_side_is_the_last_commit.
+
+(** Behind a CacheDB (production: DBStore -> CacheDB -> bolt): one flush of the cache is
+    exactly one commit of the backend — all its puts and deletes reach the backend without
+    changing the backend's committed image, and a single backend Flush ends it (KV/Model.v
+    [cache_flush], backend = the two-map specification).  So the images the backend commits
+    are those of the store's flushes, and [C03_commit_only_at_block_boundary] applies to
+    them; the harness reopens every image the underlying database of a CacheDB-backed node
+    commits. *)
+Theorem C03_cache_flush_is_one_backend_commit :
+  ∀ c : KV.Model.cache KV.Model.sp_backend,
+    ∃ s2, KV.Model.cback (KV.Model.cache_flush KV.Model.sp_backend c)
+            = KV.Model.back_apply KV.Model.sp_backend s2 KV.Model.Flush ∧
+          KV.Model.com s2 = KV.Model.com (KV.Model.cback c) ∧
+          KV.Model.com (KV.Model.cback (KV.Model.cache_flush KV.Model.sp_backend c)) = KV.Model.cur s2.
+Proof. exact cache_flush_one_commit. Qed.
+Print Assumptions C03_cache_flush_is_one_backend_commit.
